@@ -29,7 +29,7 @@ ALL_KINDS = ["smpriv", "smpub", "supriv", "empriv", "empub", "eupriv"]
 
 
 def shard(name, workers=2, **kw):
-    c = dict(MaxOps=3, TamperAll="FALSE", Masks=S([128]), Masters=q([]), MasterClasses=q(["r1"]), UidLens=S([5]), Hids=S([1]), CodecKinds=q([]),
+    c = dict(MaxOps=3, MaxArts=1, TamperAll="FALSE", Masks=S([128]), Masters=q([]), MasterClasses=q(["r1"]), UidLens=S([5]), Hids=S([1]), CodecKinds=q([]),
              SignHows=q([]), MLens=S([20]), WrapHows=q([]), KLens=S([32]), ModeSet=q([]), EncSet=q([]), RCs=q(["r1"]), Variants=q([]),
              Tamper="FALSE", KxLens=S([]), KxKLens=S([16]), KxVars=q([]))
     c.update(kw)
@@ -39,29 +39,31 @@ def shard(name, workers=2, **kw):
 def shards(quick):
     T, F = "TRUE", "FALSE"
     if quick:
+        # SM3 costs ~40 ms per block inside TLC: identities <= 49 bytes (H1 in one block) and messages <= 18 bytes keep a
+        # verdict at 2-4 blocks; long identities / messages are the recorded direction's business (exact bytes there)
         return [
             # every encoding of the six key kinds, exact
-            shard("codec", Masters=q(["s", "e"]), MasterClasses=q(["r1", "one", "nm2"]), CodecKinds=q(ALL_KINDS), UidLens=S([0, 63, 200]), Hids=S([1, 3]), workers=3),
+            shard("codec", Masters=q(["s", "e"]), MasterClasses=q(["r1", "nm2"]), CodecKinds=q(ALL_KINDS), UidLens=S([0, 63]), Hids=S([1, 3]), workers=2),
             # every single-byte corruption of a signature (ASN.1: 104 bytes; h || S: 97 bytes)
-            shard("sigtam", Masters=q(["s"]), SignHows=q(["asn1", "func"]), Variants=q(ALL_VARIANTS), Tamper=T, TamperAll=T, Masks=S([1, 128])),
+            shard("sigtamA", Masters=q(["s"]), SignHows=q(["asn1"]), MLens=S([16]), Variants=q(ALL_VARIANTS), Tamper=T, TamperAll=T, Masks=S([1, 128])),
+            shard("sigtamF", Masters=q(["s"]), SignHows=q(["func"]), MLens=S([16]), Variants=q(ALL_VARIANTS), Tamper=T, TamperAll=T, Masks=S([1, 128])),
             # identities, hid, messages, nonces, entry points
-            shard("sigvar", Masters=q(["s"]), MasterClasses=q(["r2", "nm2"]), SignHows=q(["asn1", "func", "method"]), UidLens=S([0, 63, 200]), MLens=S([0, 100]),
+            shard("sigvar", Masters=q(["s"]), MasterClasses=q(["r2", "nm2"]), SignHows=q(["asn1", "func", "method"]), UidLens=S([0, 49]), MLens=S([0, 18]),
                   RCs=q(["r1", "nm1"]), Variants=q(ALL_VARIANTS), workers=4),
             # every single-byte corruption of an encapsulated key
             shard("wraptam", Masters=q(["e"]), WrapHows=q(["func", "method"]), Variants=q(ALL_VARIANTS), Tamper=T, TamperAll=T, Masks=S([1, 128])),
-            shard("wrapvar", Masters=q(["e"]), MasterClasses=q(["r2", "one"]), WrapHows=q(["func", "method"]), UidLens=S([0, 63, 64, 200]), KLens=S([16, 133, 411]),
+            shard("wrapvar", Masters=q(["e"]), MasterClasses=q(["r2", "one"]), WrapHows=q(["func", "method"]), UidLens=S([0, 49, 64]), KLens=S([16, 133, 411]),
                   Hids=S([3]), RCs=q(["r1", "one"]), Variants=q(ALL_VARIANTS), Tamper=T, workers=4),
             # every single-byte corruption of a ciphertext (|M| = 17), all modes, both encodings
             shard("cttamA", Masters=q(["e"]), ModeSet=q(["xor", "ecb", "cbc"]), EncSet=q(["raw", "asn1"]), MLens=S([17]), Hids=S([3]), Tamper=T, TamperAll=T, Masks=S([1, 128]), workers=3),
             shard("cttamB", Masters=q(["e"]), ModeSet=q(["cfb", "ofb"]), EncSet=q(["raw", "asn1"]), MLens=S([17]), Hids=S([3]), Tamper=T, TamperAll=T, Masks=S([1, 128]), workers=3),
-            shard("ctvar", Masters=q(["e"]), MasterClasses=q(["r1", "nm2"]), ModeSet=q(ALL_MODES), EncSet=q(["raw", "asn1"]), UidLens=S([0, 60, 200]), MLens=S([1, 16, 100]),
+            shard("ctvar", Masters=q(["e"]), ModeSet=q(ALL_MODES), EncSet=q(["raw", "asn1"]), UidLens=S([0, 49]), MLens=S([1, 16, 100]),
                   Hids=S([3]), Variants=q(ALL_VARIANTS), Tamper=T, workers=4),
             # key exchange: every run variant, every corruption of R_A, R_B, S_B, S_A
             shard("kxtam", Masters=q(["e"]), KxLens=S([3]), Hids=S([2]), KxVars=q(KX_ALL), Tamper=T, TamperAll=T, Masks=S([1])),
             shard("kxvar", Masters=q(["e"]), MasterClasses=q(["r2", "one"]), KxLens=S([0, 5, 64]), Hids=S([2]), KxKLens=S([16, 133]), KxVars=q(KX_ALL), Tamper=T, workers=4),
             # longer histories: several artefacts alive at once, consumers in any order
-            shard("mix", MaxOps=5, Masters=q(["s", "e"]), SignHows=q(["asn1"]), WrapHows=q(["func"]), ModeSet=q(["cbc"]), EncSet=q(["asn1"]), Hids=S([1]),
-                  Variants=q(["ok", "wrongid"]), workers=4),
+            shard("mix", MaxOps=6, MaxArts=2, Masters=q(["s", "e"]), SignHows=q(["asn1"]), WrapHows=q(["func"]), ModeSet=q(["cbc"]), EncSet=q(["asn1"]), MLens=S([16]), Variants=q(["ok", "wrongid"]), workers=4),
         ]
     return [
         shard("codec", Masters=q(["s", "e"]), MasterClasses=q(["r1", "r2", "one", "nm2"]), CodecKinds=q(ALL_KINDS), UidLens=S([0, 1, 63, 64, 127, 200]), Hids=S([0, 1, 3, 255]), workers=4),
@@ -88,7 +90,7 @@ def shards(quick):
         shard("kxtam", Masters=q(["e"]), KxLens=S([3]), Hids=S([2]), KxVars=q(KX_ALL), Tamper=T, TamperAll=T, Masks=S([1, 2, 128, 255])),
         shard("kxvarA", Masters=q(["e"]), MasterClasses=q(["r2", "one"]), KxLens=S([0, 5, 64]), Hids=S([2, 255]), KxKLens=S([16, 133]), KxVars=q(KX_ALL), Tamper=T, workers=4),
         shard("kxvarB", Masters=q(["e"]), MasterClasses=q(["r1", "nm2"]), KxLens=S([1, 63, 200]), Hids=S([0, 1]), KxKLens=S([48, 300]), KxVars=q(KX_ALL), Tamper=T, workers=4),
-        shard("mix", MaxOps=5, Masters=q(["s", "e"]), SignHows=q(["asn1"]), WrapHows=q(["func"]), ModeSet=q(["cbc", "xor"]), EncSet=q(["asn1"]), Hids=S([1]),
+        shard("mix", MaxOps=6, MaxArts=2, Masters=q(["s", "e"]), SignHows=q(["asn1"]), WrapHows=q(["func"]), ModeSet=q(["cbc", "xor"]), EncSet=q(["asn1"]), Hids=S([1]), MLens=S([16]),
               Variants=q(["ok", "wrongid", "wrongkey"]), workers=4),
     ]
 
@@ -256,7 +258,7 @@ def run(ctx):
     ctx.replay_all(allt, rc, per_trace_timeout=60)
     ctx.binding_guard(outs[sh[0]["name"]], rc[0])
     ctx.binding_guard(outs["wraptam"], rc[0])
-    for n in ("sigtam" if quick else "sigtamA", "ctvar" if quick else "ctvarA", "kxtam"):
+    for n in ("sigtamA", "ctvar" if quick else "ctvarA", "kxtam"):
         ctx.sample_traces(outs[n])
     ctx.count_distinct(allt, trace_key)
     ctx.extra["shards"] = [s["name"] for s in sh]
